@@ -249,6 +249,8 @@ def build(ctx, name, fn=None):
     nin = 1 if name in F1_ENTRIES else ctx.params.get("nin", 2)
     ins = [RecFuture(ev, "in%d" % i) for i in range(nin)]
     e.inputs = ins
+    if ctx.params.get("predone") and nin > 1:
+        finish(ins[-1], "value", e.value)  # an input that is already finished when the combinator is created
     if name == "f_map":
         e.fut = F.f_map(ins[0], lambda x: x)
     elif name == "f_flat_map":
